@@ -1,6 +1,7 @@
 import Ekit.Props.C08
 import Ekit.Props.C08HW
 import Ekit.Props.C08Heap
+import Ekit.Props.C08Rev
 open Ekit.DelayQ
 #print axioms c08_skel_DelayQueue_Dequeue
 #print axioms c08_skel_DelayQueue_Enqueue
@@ -21,6 +22,18 @@ open Ekit.DelayQ
 #print axioms c08_effect_marked
 #print axioms c08_effect_cleared_only_by_invocation
 #print axioms c08_linearizable_timed
+-- review additions (Ekit/Props/C08Rev.lean): whole-call form of 'earliest', clocked linearizability
+#print axioms retOf_deqOk_by_pop
+#print axioms c08_call_removes_by_pop
+#print axioms c08_whole_call_earliest
+#print axioms tlin_clock
+#print axioms tlin_deq_expired
+#print axioms arun_exact
+#print axioms step_now
+#print axioms simX_step
+#print axioms c08_linearizable_clocked
+#print axioms c08_tlinearizable
+#print axioms exactSpec_le_timedSpec
 -- the same statements in the classical Herlihy–Wing form (Ekit/Conc/HerlihyWing*.lean)
 #print axioms Ekit.Props.HWForms.c08_hw_linearizable_timed
 -- composition with the C05 heap model (Ekit/Props/C08Heap.lean)
